@@ -349,8 +349,26 @@ func applyPlain(tx *bolt.Tx, st *gen.Step) error {
 		return err
 	case "setSeq":
 		return b.SetSequence(st.U)
+	case "move":
+		// st.P: source parent (nil = root), st.N: name, st.D: destination parent (nil = root)
+		var dst *bolt.Bucket
+		if len(st.D) > 0 {
+			names := gen.Path(st.D)
+			dst = tx.Bucket([]byte(names[0]))
+			for _, n := range names[1:] {
+				if dst == nil {
+					return fmt.Errorf("harness: destination path does not resolve")
+				}
+				dst = dst.Bucket([]byte(n))
+			}
+			if dst == nil {
+				return fmt.Errorf("harness: destination path does not resolve")
+			}
+		}
+		return tx.MoveBucket(name, b, dst)
+	default:
+		return fmt.Errorf("harness: applyPlain does not know the operation %q", st.Op)
 	}
-	return nil
 }
 
 // raceReports counts "WARNING: DATA RACE" blocks in the race detector's log files.
